@@ -393,3 +393,27 @@ def ob_payload_line_separators(si: int, c0: int, nd: int, d1: int) -> bool:
         return _run(3, c0, False, -1, 1, faults, live_from=3, gaps=[], heartbeat=25.0)
     finally:
         _TEXT[0] = None
+
+
+T10 = 12   # events of the run whose sequence numbers cross a power of ten
+
+
+@obligation(quick=200, thorough=600, partitions_quick=[f"c0 == {c}" for c in (7, 8, 9, 10)],
+            partitions_thorough=[f"c0 == {c} and nd == {n}" for c in (6, 7, 8, 9, 10) for n in (1, 2)],
+            what="sequence numbers that cross a power of ten (a run with 12 events, cursor at 7..10): every later event exactly once, in order, "
+                 "for every placement of the faults — the resume cursor is a NUMBER (9 < 10), whatever its decimal spelling",
+            bounds={"events": T10, "cursor c0": "7..10 (thorough 6..10)", "faults": "1 (thorough 2)",
+                    "fault": "-1 = connect error, else lines delivered before the drop 0..3*(events after the cursor)"})
+def ob_ids_crossing_ten(c0: int, nd: int, d1: int, d2: int) -> bool:
+    """
+    pre: C10LO <= c0 <= 10 and 1 <= nd <= ND10
+    pre: -1 <= d1 <= 3 * (T10 - 1 - c0) and -1 <= d2 <= 3 * (T10 - 1 - c0) and (nd >= 2 or d2 == -1)
+    post: _
+    """
+    c0 = _concrete(c0, 6, 10)
+    faults = [_concrete(d1, -1, 3 * 5), _concrete(d2, -1, 3 * 5)][:_concrete(nd, 1, 2)]
+    return _run(T10, c0, False, -1, 2, faults, live_from=T10, gaps=[], heartbeat=25.0)
+
+
+C10LO = B(7, 6)
+ND10 = B(1, 2)
